@@ -429,15 +429,34 @@ func (x *Extractor) valueRow(c ctx, kind string, e ast.Expr) {
 		return
 	case *ast.BinaryExpr:
 		if v.Op == token.ADD {
-			// concatenation: describe both sides as one template with %s holes
-			l, lok := x.constStr(v.X)
-			r, rok := x.constStr(v.Y)
-			switch {
-			case lok && !rok:
-				x.add(c, kind, l+"%s", []string{x.Canon(v.Y)}, v.Pos())
-				return
-			case rok && !lok:
-				x.add(c, kind, "%s"+r, []string{x.Canon(v.X)}, v.Pos())
+			// concatenation chain: one template with a %s hole per non-constant operand
+			var parts []ast.Expr
+			var flat func(e ast.Expr)
+			flat = func(e ast.Expr) {
+				if be, ok := ast.Unparen(e).(*ast.BinaryExpr); ok && be.Op == token.ADD {
+					if _, isConst := x.constStr(be); !isConst {
+						flat(be.X)
+						flat(be.Y)
+						return
+					}
+				}
+				parts = append(parts, e)
+			}
+			flat(v)
+			tmpl := ""
+			var args []string
+			nconst := 0
+			for _, pt := range parts {
+				if s, ok := x.constStr(pt); ok {
+					tmpl += strings.ReplaceAll(s, "%", "%%")
+					nconst++
+				} else {
+					tmpl += "%s"
+					args = append(args, x.Canon(pt))
+				}
+			}
+			if nconst > 0 {
+				x.add(c, kind, tmpl, args, v.Pos())
 				return
 			}
 		}
@@ -619,13 +638,19 @@ func (x *Extractor) walkStmt(s ast.Stmt, c ctx) ctx {
 					cc2.gs = prev
 					x.walkList(dflt.Body, cc2)
 				}
-				allTerminate := dflt != nil
+				// what follows the switch: when every conditional clause leaves and there is no default,
+				// control continues only if no condition held
+				condsLeave := true
 				for _, cl := range st.Body.List {
-					if !terminates(cl.(*ast.CaseClause).Body) {
-						allTerminate = false
+					if cc := cl.(*ast.CaseClause); cc.List != nil && !terminates(cc.Body) {
+						condsLeave = false
 					}
 				}
-				_ = allTerminate
+				if condsLeave && dflt == nil {
+					cc := c
+					cc.gs = prev
+					return cc
+				}
 				return c
 			}
 		}
@@ -735,7 +760,22 @@ func (x *Extractor) walkStmt(s ast.Stmt, c ctx) ctx {
 		cc.loopIx = append(append([]string(nil), c.loopIx...), ix)
 		cc.loops = append(append([]string(nil), c.loops...), lbl)
 		x.walkList(st.Body.List, cc)
-	case *ast.DeclStmt, *ast.IncDecStmt, *ast.BranchStmt, *ast.EmptyStmt:
+	case *ast.DeclStmt:
+		// `var x T = E` is `x := E`
+		if gd, ok := st.Decl.(*ast.GenDecl); ok && gd.Tok == token.VAR {
+			for _, sp := range gd.Specs {
+				vs, ok := sp.(*ast.ValueSpec)
+				if !ok || len(vs.Values) != len(vs.Names) {
+					continue
+				}
+				lhs := make([]ast.Expr, len(vs.Names))
+				for i, n := range vs.Names {
+					lhs[i] = n
+				}
+				c = x.walkStmt(&ast.AssignStmt{Lhs: lhs, Tok: token.DEFINE, Rhs: vs.Values, TokPos: vs.Pos()}, c)
+			}
+		}
+	case *ast.IncDecStmt, *ast.BranchStmt, *ast.EmptyStmt:
 	case *ast.LabeledStmt:
 		return x.walkStmt(st.Stmt, c)
 	}
